@@ -64,6 +64,17 @@ Theorem C40_advertised_window_refuted :
 Proof. exact hol_lemma. Qed.
 Print Assumptions C40_advertised_window_refuted.
 
+(* outbound_within_client_windows, event level: response DATA leaves the write scheduler only through
+   take_head (see sched); a DATA frame of m > 0 bytes is released only if m fits the stream's send window,
+   the session's send window and the 16384-byte frame limit, and the session window is charged exactly m.
+   (Over histories this clause is checked by prop_C40 on the implementation's frames, not proved.) *)
+Theorem C40_outbound_within_client_windows : forall c id s n fin q,
+  find_s id (strs c) = Some s -> outq s = (0, n, fin) :: q -> 0 < n ->
+  exists m c', take_head c id = (c', f_data id m (fin && (m =? n)) :: (if fin && (m =? n) && (sstate s =? 1) then [f_rst id 5] else []))
+    /\ m <= n /\ m <= soflow s /\ m <= cflow c /\ m <= MAXFRAME /\ cflow c' = cflow c - m.
+Proof. exact take_head_data_within_windows. Qed.
+Print Assumptions C40_outbound_within_client_windows.
+
 (* invalid_ids_rejected: before any GOAWAY, a SYN_STREAM whose id is even or lower than the highest id seen
    ends the session with GOAWAY(last-good = highest id, PROTOCOL_ERROR); a repeated highest id resets that stream. *)
 Theorem C40_invalid_ids_rejected : forall c id fin cl bad,
